@@ -29,6 +29,9 @@ type GenOpts struct {
 	// through (times outside UTC). Only for operations whose oracle does not
 	// need the round trip to be the identity.
 	NonCanonical bool
+	// Fanout > 0: slices and maps met at depth <= 1 get exactly this many
+	// elements (scale probes); deeper containers stay small.
+	Fanout int
 }
 
 type gen struct {
@@ -261,10 +264,18 @@ func (g *gen) fill(v reflect.Value, depth int, top bool) {
 			return
 		}
 		n := g.n(4)
+		if g.o.Fanout > 0 && depth <= 1 {
+			n = g.o.Fanout
+			g.budget = 1 << 30
+		}
 		if n == 0 {
 			return
 		}
 		s := reflect.MakeSlice(t, n, n)
+		if g.o.NonCanonical && t.Elem().Kind() == reflect.Ptr && g.r.Intn(4) == 0 {
+			v.Set(s) // every entry nil: present on the wire, no (or zero-valued) elements
+			return
+		}
 		for i := 0; i < n; i++ {
 			e := s.Index(i)
 			if t.Elem().Kind() == reflect.Ptr {
@@ -284,6 +295,10 @@ func (g *gen) fill(v reflect.Value, depth int, top bool) {
 		if g.o.NoMulti && n > 1 {
 			n = 1
 		}
+		if g.o.Fanout > 0 && depth <= 1 {
+			n = g.o.Fanout
+			g.budget = 1 << 30
+		}
 		if n == 0 && g.r.Intn(2) == 0 {
 			return // nil map
 		}
@@ -291,6 +306,9 @@ func (g *gen) fill(v reflect.Value, depth int, top bool) {
 		for i := 0; i < n; i++ {
 			k := reflect.New(t.Key()).Elem()
 			g.fill(k, depth+1, false)
+			if g.o.Fanout > 0 && depth <= 1 {
+				uniqueKey(k, i)
+			}
 			e := reflect.New(t.Elem()).Elem()
 			if t.Elem().Kind() == reflect.Ptr {
 				if g.r.Intn(4) != 0 {
@@ -350,4 +368,25 @@ func (g *gen) any(depth int) interface{} {
 
 func isNullType(t reflect.Type) bool {
 	return t.PkgPath() == "github.com/unravelin/null" && t.Kind() == reflect.Struct && t.NumField() == 1
+}
+
+// uniqueKey makes the i-th generated map key distinct from the others.
+func uniqueKey(k reflect.Value, i int) {
+	switch k.Kind() {
+	case reflect.String:
+		k.SetString(fmt.Sprintf("k%d", i))
+	case reflect.Int, reflect.Int8, reflect.Int16, reflect.Int32, reflect.Int64:
+		k.SetInt(int64(i))
+	case reflect.Uint, reflect.Uint8, reflect.Uint16, reflect.Uint32, reflect.Uint64:
+		k.SetUint(uint64(i))
+	case reflect.Float32, reflect.Float64:
+		k.SetFloat(float64(i) + 0.5)
+	case reflect.Struct:
+		for j := 0; j < k.NumField(); j++ {
+			if f := k.Field(j); f.CanSet() && (f.Kind() == reflect.Int || f.Kind() == reflect.String) {
+				uniqueKey(f, i)
+				return
+			}
+		}
+	}
 }
